@@ -681,6 +681,24 @@ def bool_cases():
     return out
 
 
+def unitpow_cases():
+    """Pow(base, e) held unevaluated for trivial / float exponents, base of every lower-precedence kind, in every operand
+    position of every parent operator (the parent brackets by precedence(Pow); the Pow printer must not drop them)"""
+    x, y = X, Y
+    exps = [('f1', Fl(1.0)), ('i1', I(1)), ('fm1', Fl(-1.0)), ('im1', I(-1)), ('f2', Fl(2.0)), ('fh', Fl(0.5))]
+    bases = [('sum', Add(x, y)), ('diff', Add(x, Mul(I(-1), y))), ('prod', Mul(x, y)), ('neg', Mul(I(-1), x)),
+             ('quot', Mul(x, Pow(y, I(-1)))), ('recip', Pow(y, I(-1))), ('negint', I(-2)), ('rat', Q(2, 3)),
+             ('negfloat', Fl(-0.5)), ('pow', Pow(x, y)), ('sym', x), ('fn', Fn('exp', x)), ('rel', Rel(2, x, y))]
+    out = []
+    for en, e in exps:
+        for bn, b in bases:
+            h = Pow(b, e)
+            out.append(('unitpow:%s:%s:top' % (en, bn), h))
+            for pn, t in parents(h):
+                out.append(('unitpow:%s:%s:%s' % (en, bn, pn), t))
+    return out
+
+
 def relrel_cases():
     """relations whose operands are relations / truth values: 6 x 6 kinds x (left, right, both), constants, and the
     same inside and / or / piecewise conditions.  Eq / Ne of two truth values is well-sorted (value-checked);
@@ -779,6 +797,9 @@ def gen_cases(seed, tier, extra=0):
     for name, t in relrel_cases():
         for evf in (False, True):
             cases.append({'tree': t, 'ev': evf, 'kind': 'relrel'})
+    for name, t in unitpow_cases():
+        for evf in (False, True):
+            cases.append({'tree': t, 'ev': evf, 'kind': 'unitpow'})
     rng = random.Random(seed * 1000003 + 11 + extra)
     n = (3000 if tier == 'quick' else 150000) * (4 if extra and tier == 'quick' else 1)
     for i in range(n):
